@@ -80,7 +80,7 @@ def malformed_stream(ctx, ri):
     out = []
     for e in known:
         for c in ["\ud800", "a\udfffb", "http://a/\ud800"]:
-            n = Node(e); n._content = c
+            n = Node(e); impl.set_content(n, c)
             out.append((f"{e} content {c!r}", n))
         n = Node(e); n.attributes["id"] = 5; n.attributes[7] = "x"
         out.append((f"{e} non-str attribute key/value", n))
